@@ -116,10 +116,44 @@ fn history<const D: usize>(hid: usize, rng: &mut Rng, out: &mut Out, steps: usiz
     let np = D + 2 + rng.below(7) as usize;
     let ps = gens::point_set(rng, D, np);
     let Some(mut w): Option<World<D>> = hist::start_built::<D>(&ps.pts, 1, rng) else { return };
-    for s in 0..steps {
-        let obs = if rng.chance(1, 2) { roundtrip(&mut w, rng) } else { w.do_flip(rng) };
-        if obs.is_empty() { continue; }
-        w.emit_state(&format!("e{D}_{hid}_{s}"), "flip", "expect=valid12m", &obs, out, false);
+    let mut seen_kinds: std::collections::HashSet<String> = std::collections::HashSet::new();
+    let mut case_no = 0usize;
+    for _s in 0..steps {
+        let mode = rng.below(8);
+        if mode == 0 {
+            let obs = roundtrip(&mut w, rng);
+            if !obs.is_empty() {
+                case_no += 1;
+                w.emit_state(&format!("e{D}_{hid}_{case_no}"), "flip", "expect=valid12m", &obs, out, false);
+            }
+            continue;
+        }
+        // walk handles of the chosen class in random order until one flip succeeds; every new
+        // outcome kind and every success is emitted as a case
+        let kind = match mode { 1 | 2 => 0u64, 3 | 4 => 2, 5 => 3, 6 => 4, _ => 5 };
+        if kind == 2 && D < 3 { continue; }
+        let mut handles: Vec<(delaunay::core::triangulation_data_structure::CellKey, u8, u8)> = Vec::new();
+        for (ck, _) in w.dt.cells() {
+            for a in 0..=(D as u8) {
+                if kind == 0 { handles.push((ck, a, a)); } else {
+                    for b in (a + 1)..=(D as u8) { handles.push((ck, a, b)); }
+                }
+            }
+        }
+        rng.shuffle(&mut handles);
+        handles.truncate(if kind == 5 { 2 } else { 40 });
+        for h in handles {
+            let obs = w.do_flip_kind(kind, Some(h), rng);
+            if obs.is_empty() { continue; }
+            let outcome = obs.iter().find(|(k, _)| k == "outcome").map(|(_, v)| v.clone()).unwrap_or_default();
+            let ok = outcome.ends_with(":ok");
+            let bad = obs.iter().any(|(k, v)| (k == "unchanged" || k == "one_added" || k == "key_resolves") && v != "1");
+            if ok || bad || seen_kinds.insert(outcome.clone()) {
+                case_no += 1;
+                w.emit_state(&format!("e{D}_{hid}_{case_no}"), "flip", "expect=valid12m", &obs, out, false);
+            }
+            if ok { break; }
+        }
     }
 }
 
